@@ -3043,7 +3043,7 @@ class GaussianTransform(Decomposition):
 
         if self.active:
             if not self.vacuum:
-                cmds = [Command(Interferometer(self.U2), reg)]
+                cmds = [Command(Interferometer(self.U2, mesh=mesh), reg)]
 
             for n, expr in enumerate(self.Sq):
                 if np.abs(expr - 1) >= _decomposition_tol:
